@@ -194,6 +194,8 @@ class FakeS3(FakeService):
         super().__init__(**kw)
         self.bucket, self.secrets, self.page_size, self.verify = bucket, secrets, page_size, verify
         self.objects = {}
+        self.empty_page_every = 0       # 0 = never
+        self.empty_pages = 0
         self.sig_failures = []
         self.verified = 0
         self.pages = 0
@@ -239,6 +241,19 @@ class FakeS3(FakeService):
                 names = [n for n in names if n > start[6:]]
             page, rest = names[:self.page_size], names[self.page_size:]
             self.pages += 1
+            # S3 may answer with an EMPTY page that is nevertheless truncated (a run of delete markers in a versioned bucket):
+            # every `empty_page_every`-th page of a listing that has more to come is such a page, its token resumes where it is
+            if self.empty_page_every and rest and page and self.pages % self.empty_page_every == 0:
+                self.empty_pages += 1
+                after = token and start[6:] or ''
+                tok = base64.standard_b64encode(('after:' + after).encode('utf-8', 'surrogateescape')).decode()
+                if not hasattr(self, '_skip_once') or self._skip_once != (pfx, after):
+                    self._skip_once = (pfx, after)
+                    xml = ['<?xml version="1.0" encoding="UTF-8"?><ListBucketResult xmlns="http://s3.amazonaws.com/doc/2006-03-01/">',
+                           f'<Name>{xml_escape(self.bucket)}</Name><Prefix>{xml_escape(pfx)}</Prefix><KeyCount>0</KeyCount>',
+                           '<IsTruncated>true</IsTruncated>', f'<NextContinuationToken>{xml_escape(tok)}</NextContinuationToken>',
+                           '</ListBucketResult>']
+                    return self._respond(request, 200, ''.join(xml).encode('utf-8', 'surrogateescape'))
             xml = ['<?xml version="1.0" encoding="UTF-8"?><ListBucketResult xmlns="http://s3.amazonaws.com/doc/2006-03-01/">',
                    f'<Name>{xml_escape(self.bucket)}</Name><Prefix>{xml_escape(pfx)}</Prefix><KeyCount>{len(page)}</KeyCount>',
                    f'<IsTruncated>{"true" if rest else "false"}</IsTruncated>']
